@@ -578,6 +578,19 @@ def api3_scenarios(ctx):
        "load a10102", "vals 6", "load c1c249010000000000000000", "vals 7", "titem 7", "vals 8", "load 9f8080ff", "vals 9", "copy 9", "vals 10", "load 62c328", "vals 11", "load 78186162636465666768696a6b6c6d6e6f707172737475767778", "vals 12"])
     for n in (0, 1, 2, 3, 5, 9):
         A(["bi 0 8 1", "nia"] + ["push 1 0"] * n + ["vals 1", "nim"] + ["madd 2 0 0"] * n + ["vals 2", "bs 1 61", "nis 1"] + ["chunk 4 3"] * n + ["vals 4", "preds 0"])
+    # the pointer getters (cbor_*_handle, cbor_*_chunks_handle): the block designated (0 = NULL) and its contents
+    A(["nds 0", "ptrs 0", "seth 0 000102ff", "ptrs 0", "shorten 0 2", "ptrs 0", "nds 1", "ptrs 1", "bs 1 c3a9", "ptrs 2", "bs 0 -", "ptrs 3", "bs0 -", "ptrs 4",
+       "nis 0", "ptrs 5", "chunk 5 0", "chunk 5 3", "chunk 5 0", "ptrs 5", "nis 1", "ptrs 6", "chunk 6 2", "ptrs 6"])
+    A(["nia", "ptrs 0", "nda 0", "ptrs 1", "nda 3", "ptrs 2", "bi 0 8 1", "bb 1", "push 0 3", "push 0 4", "push 0 3", "ptrs 0", "push 2 4", "ptrs 2", "push 1 3", "ptrs 1",
+       "nim", "ptrs 5", "ndm 0", "ptrs 6", "ndm 2", "ptrs 7", "madd 5 3 4", "madd 5 4 4", "madd 5 3 0", "ptrs 5", "madd 7 3 3", "ptrs 7", "nt 5", "ptrs 8", "ptrs 3", "ptrs 4",
+       "repl 0 1 3", "ptrs 0", "copy 5", "ptrs 9"])
+    A(["load 83616101f6", "ptrs 0", "load 7f62c3a96161ff", "ptrs 1", "load 5f41004101ff", "ptrs 2", "load bf0102ff", "ptrs 3", "load a10102", "ptrs 4", "load 9f8080ff", "ptrs 5",
+       "load 40", "ptrs 6", "load 60", "ptrs 7", "load 80", "ptrs 8", "load a0", "ptrs 9", "load 9fff", "ptrs 10", "load 5fff", "ptrs 11"])
+    for n in (1, 2, 3, 5, 9):
+        A(["bi 0 8 1", "nia"] + ["push 1 0"] * n + ["ptrs 1", "nim"] + ["madd 2 0 0"] * n + ["ptrs 2", "bs 1 61", "nis 1"] + ["chunk 4 3"] * n + ["ptrs 4"])
+    # cbor_set_allocs again while nothing is alive; blocks of one family never reach the other
+    A(["swalloc", "bi 0 8 1", "dec 0", "swalloc", "nia", "bs0 6162", "pushmv 1 2", "copy 1", "dec 1", "dec 3", "swalloc", "load 83616101f6", "salloc 4", "dec 4", "swalloc", "swalloc", "nt 1", "dec 5"])
+    A(["bi 0 8 1", "nia", "push 1 0", "dec 0", "dec 1", "swalloc", "nim", "bb 1", "madd 2 3 3", "vals 2", "dec 2", "dec 3", "swalloc", "nds 1", "seth 4 6869", "ptrs 4", "dec 4"])
     # predicates / getters on every other type
     A(["bs 0 0102", "preds 0", "vals 0", "bs 1 6869", "vals 1", "nis 0", "vals 2", "nis 1", "vals 3", "nda 2", "vals 4", "nia", "vals 5", "ndm 1", "vals 6", "nim", "vals 7",
        "nt 9", "preds 8", "vals 8", "nds 0", "vals 9", "nds 1", "vals 10"])
@@ -591,17 +604,20 @@ class Shadow3(Shadow):
         self.width = {}         # ident -> int / float width (known for items this client made itself)
         self.neg = {}           # ident -> sign of an int
         self.ctrl = {}          # ident -> ctrl value
+        self.slen = {}          # ident -> length of a definite string whose buffer the client installed (set_handle)
     def ready(self, hs):
         return [h for h in hs if self.ident[h] not in self.unset]
     def total_own(self, ident):
         return sum(self.own[h] for h in range(len(self.own)) if self.ident[h] == ident and self.own[h] > 0)
 
 
-def gen_history3(rng, length):
+def gen_history3(rng, length, soak=None):
     """rule-following histories mixing the calls of HHist3.v with those of HHist.v: on top of the rules of
     gen_history, a value is never read (getter, serializer, copy, insertion into a container or tag)
     before it has been stored; cbor_move alone only when another reference exists; f(.., cbor_move(x))
-    only when f will take its reference (room in a definite container, tag still empty)"""
+    only when f will take its reference (room in a definite container, tag still empty).
+    soak = {"lo": .., "hi": ..} (thorough tier): `length` counts ops, the number of live handles is steered
+    into [lo, hi], and _soak_step interleaves the heavy families (see there)"""
     s = Shadow3(rng)
     def mk(text, kind, **attrs):
         h = s.add(text, kind); i = s.ident[h]
@@ -614,7 +630,16 @@ def gen_history3(rng, length):
         ia = s.ident[a]
         s.children[ia] += idents; s.size[ia] = s.size.get(ia, 0) + 1
         if s.kind[a] in ("arr", "map"): s.defcap[ia] -= 1
-    for _ in range(length):
+    n_iter = 0; acct = 0
+    while (len(s.ops) < length) if soak is not None else (n_iter < length):
+        n_iter += 1
+        if soak is not None:
+            # the extracted model pays (blocks allocated) x (heap writes) for every cbor_decref call (drain_fuel sums over
+            # all addresses, each looked up through the chain of heap updates): stop before the estimate exceeds the budget
+            acct = _soak_account(s, acct)
+            if s.cost > soak.get("budget", float("inf")): break
+            if _soak_step(s, rng, soak, insert, room):
+                continue
         r = rng.random()
         live = s.live(); ready = s.ready(live)
         arrs = s.live({"arr", "arri"}); maps = s.live({"map", "mapi"}); tags = s.live({"tag"}); chs = s.live({"bsi", "tsi"})
@@ -742,6 +767,7 @@ def gen_history3(rng, length):
         elif r < 0.91 and ready:
             h = rng.choice(ready)
             if not complete(s, s.ident[h]): continue
+            if soak is not None and _expanded(s, s.ident[h], soak.get("copy_cap", 400) + 1) > soak.get("copy_cap", 400): continue
             n = s.add("copy %d" % h, s.kind[h]); clone(s, s.ident[h], s.ident[n])
             for d in (s.width, s.neg, s.ctrl):
                 if s.ident[h] in d: d[s.ident[n]] = d[s.ident[h]]
@@ -750,6 +776,7 @@ def gen_history3(rng, length):
         elif ready:
             h = rng.choice(ready)
             if not complete(s, s.ident[h]) or s.kind[h] in (None, "loaded"): continue
+            if soak is not None and _expanded(s, s.ident[h], soak.get("read_cap", 3000) + 1) > soak.get("read_cap", 3000): continue
             kd = s.kind[h]; i = s.ident[h]
             sk = {"float": "fc", "ctrl": "fc", "bs": "bytes", "bsi": "bytes", "ts": "string", "tsi": "string", "arr": "array", "arri": "array",
                   "map": "map", "mapi": "map", "tag": "tag"}.get(kd)
@@ -763,13 +790,187 @@ def gen_history3(rng, length):
             s.op("dec %d" % h); s.own[h] -= 1
     return s
 
-def render3(s):
+def render3(s, probe_max=None, full_every=64):
+    """probe_max: at most that many handles are probed after an op (the newest and a rotating sample), all of
+    them every full_every ops: the extracted model's heap is a chain of closures, a probe costs its length"""
     own, out = [], []
-    for text in s.ops:
+    for i, text in enumerate(s.ops):
         _effects3(text.split(), own)
         live = [h for h in range(len(own)) if own[h] > 0]
+        if probe_max is not None and len(live) > probe_max and i % full_every:
+            k = probe_max // 2
+            rot = [live[(i * 2654435761 + j * 40503) % len(live)] for j in range(probe_max - k)]
+            live = sorted(set(live[-k:] + rot))
         out.append(text + (" ? " + " ".join(map(str, live)) if live else ""))
     return "; ".join(out)
+
+def _subtree(s, ident, cap=400, seen=None):
+    seen = seen if seen is not None else set()
+    if ident in seen or len(seen) > cap: return 0
+    seen.add(ident)
+    return 1 + sum(_subtree(s, c, cap, seen) for c in s.children.get(ident, []))
+
+def _expanded(s, ident, cap, memo=None):
+    """number of nodes of the tree below ident counted WITH multiplicity (what cbor_copy / the serializer
+    traverse), saturating at cap"""
+    memo = memo if memo is not None else {}
+    if ident in memo: return memo[ident]
+    memo[ident] = cap            # guards against (impossible) cycles
+    n = 1
+    for c in s.children.get(ident, []):
+        n += _expanded(s, c, cap, memo)
+        if n >= cap: n = cap; break
+    memo[ident] = n
+    return n
+
+def _soak_account(s, done):
+    """estimate of the extracted model's work for the ops appended since `done` (see gen_history3)"""
+    if not hasattr(s, "cost"): s.cost = 0.0; s.A = 0.0; s.D = 0.0
+    hcount = getattr(s, "hseen", 0)
+    for text in s.ops[done:]:
+        w = text.split(); o = w[0]; dcalls = 0
+        if o in CREATORS3:
+            s.A += 1; s.D += 2
+            if o in ("bs", "bs0", "nis", "nda", "ndm"): s.A += 1
+            if o == "load":
+                n = max(1, len(w[1]) // 3); s.A += 2 * n; s.D += 5 * n; dcalls += n
+            elif o == "copy":
+                n = _expanded(s, s.ident[int(w[1])], 5000); s.A += 2 * n; s.D += 6 * n; dcalls += n
+            elif o in ("bt", "btmv"): s.D += 3
+        elif o in ("push", "pushmv", "madd", "maddmv", "chunk", "tset", "tsetmv"):
+            s.D += 3; s.A += 0.15
+        elif o in ("set", "repl"): s.D += 4; dcalls += 1
+        elif o in ("dec", "idec"): s.D += 4; dcalls += 1
+        elif o == "seth": s.A += 1; s.D += 1
+        else: s.D += 1
+        s.cost += dcalls * s.A * s.D
+    return len(s.ops)
+
+def _soak_step(s, rng, cfg, insert, room):
+    """the heavy families of the soak histories; returns True when it emitted ops"""
+    from .cborgen import random_enc
+    live = s.live(); ready = s.ready(live)
+    r = rng.random()
+    if len(live) > cfg["hi"] and r < 0.6:
+        h = rng.choice(live); s.op(rng.choice(["dec %d", "idec %d"]) % h); s.own[h] -= 1; return True
+    if len(live) < cfg["lo"] and r < 0.5:
+        text, kind = leaf_op(rng)
+        if kind == "float": text = "bf 32 3fc00000"
+        s.add(text, kind); return True
+    if r >= 0.30: return False
+    k = rng.randrange(9)
+    if k == 0:      # cbor_load of a random well-formed item
+        e = random_enc(rng, rng.choice([1, 2, 3, 4]))
+        if not 0 < len(e.bs) <= 600: return False
+        s.add("load %s" % hx(e.bs), "loaded"); return True
+    if k == 1 and ready:      # a deep chain of tags on top of an item; only the top stays with the client
+        x = rng.choice(ready)
+        if not complete(s, s.ident[x]): return False
+        cur = x
+        for d in range(rng.choice([5, 9, 17, 33])):
+            h = s.add("bt %d %d" % (rng.choice([0, 23, 24, 255, 65536, 2 ** 32, 2 ** 64 - 1]), cur), "tag")
+            s.children[s.ident[h]] = [s.ident[cur]]; s.tagfull[s.ident[h]] = True
+            if d > 0: s.op("dec %d" % cur); s.own[cur] -= 1
+            cur = h
+        return True
+    if k == 2 and ready:      # one container across many growth steps
+        kind = rng.choice(["arri", "mapi", "chunk"])
+        n = rng.choice([20, 40, 70, 130, 260])
+        if kind == "arri":
+            cs = s.live({"arri"}); a = rng.choice(cs) if cs and rng.random() < 0.5 else s.add("nia", "arri")
+            x = rng.choice(ready)
+            if s.reaches(s.ident[x], s.ident[a]): return False
+            for _ in range(n): s.op("push %d %d" % (a, x)); insert(a, [s.ident[x]])
+        elif kind == "mapi":
+            cs = s.live({"mapi"}); m = rng.choice(cs) if cs and rng.random() < 0.5 else s.add("nim", "mapi")
+            kx = rng.choice(ready); vx = rng.choice(ready)
+            if s.reaches(s.ident[kx], s.ident[m]) or s.reaches(s.ident[vx], s.ident[m]): return False
+            for _ in range(n // 2): s.op("madd %d %d %d" % (m, kx, vx)); insert(m, [s.ident[kx], s.ident[vx]])
+        else:
+            t = rng.randrange(2)
+            xs = s.live({"ts" if t else "bs"})
+            if not xs: return False
+            c = s.add("nis %d" % t, "tsi" if t else "bsi"); x = rng.choice(xs)
+            for _ in range(n): s.op("chunk %d %d" % (c, x)); s.children[s.ident[c]].append(s.ident[x])
+        return True
+    if k == 3 and cfg.get("client_buffers", True):      # a client-provided buffer: new definite string + set_handle
+        # (not under refusal schedules: when the client's own buffer request is refused the string stays without buffer, and
+        #  reading such a string is memcpy(dst, NULL, 0) in the library -- reported separately, see DESIGN 12.3)
+        t = rng.randrange(2); n = rng.choice([0, 1, 5, 24, 60, 300])
+        data = [rng.choice([0x41, 0x7A, 0x20, 0xC3, 0xA9, 0xE2, 0x82, 0xAC, 0x00]) if t else rng.randrange(256) for _ in range(n)]
+        h = s.add("nds %d" % t, "ts" if t else "bs"); s.op("seth %d %s" % (h, hx(data))); s.slen[s.ident[h]] = n
+        return True
+    if k == 4:      # shortening in place
+        hs = [h for h in live if s.ident[h] in s.slen]
+        if not hs: return False
+        h = rng.choice(hs); i = s.ident[h]; n = rng.randrange(0, s.slen[i] + 1)
+        s.op("shorten %d %d" % (h, n)); s.slen[i] = n; return True
+    if k == 5 and ready:      # cbor_copy of the largest tree among a sample
+        cs = [h for h in rng.sample(ready, min(8, len(ready))) if complete(s, s.ident[h]) and s.kind[h] is not None
+              and _expanded(s, s.ident[h], cfg.get("copy_cap", 400) + 1) <= cfg.get("copy_cap", 400)]
+        if not cs: return False
+        h = max(cs, key=lambda h: _expanded(s, s.ident[h], 10 ** 6))
+        n = s.add("copy %d" % h, s.kind[h]); clone(s, s.ident[h], s.ident[n])
+        for d in (s.width, s.neg, s.ctrl):
+            if s.ident[h] in d: d[s.ident[n]] = d[s.ident[h]]
+        return True
+    if k == 6 and ready:      # one item in many containers
+        x = rng.choice(ready); ix = s.ident[x]; did = False
+        for a in rng.sample(live, min(10, len(live))):
+            ia = s.ident[a]
+            if a == x or s.reaches(ix, ia): continue
+            if s.kind[a] in ("arr", "arri") and room(a): s.op("push %d %d" % (a, x)); insert(a, [ix]); did = True
+            elif s.kind[a] in ("map", "mapi") and room(a): s.op("madd %d %d %d" % (a, x, x)); insert(a, [ix, ix]); did = True
+            elif s.kind[a] == "tag" and not s.tagfull.get(ia, True): s.op("tset %d %d" % (a, x)); s.children[ia] = [ix]; s.tagfull[ia] = True; did = True
+        return did
+    if k == 7 and ready:      # whole-tree readers on the largest tree among a sample (also decoded ones)
+        cs = [h for h in rng.sample(ready, min(8, len(ready))) if complete(s, s.ident[h])
+              and _expanded(s, s.ident[h], cfg.get("read_cap", 3000) + 1) <= cfg.get("read_cap", 3000)]
+        if not cs: return False
+        h = max(cs, key=lambda h: _expanded(s, s.ident[h], 10 ** 6))
+        s.op(rng.choice(["salloc %d" % h, "ssize %d" % h, "desc %d" % h, "ser %d %d" % (h, rng.choice([0, 1, 9, 64, 4096])), "vals %d" % h, "preds %d" % h]))
+        return True
+    if k == 8 and ready:      # the move idioms in a row: fresh items moved into one container
+        cs = s.live({"arri", "mapi"})
+        if not cs: return False
+        a = rng.choice(cs)
+        for _ in range(rng.choice([3, 8, 20])):
+            if s.kind[a] == "arri":
+                h = s.add(rng.choice(["ni 8", "bb 1", "nn", "bs0 6162"]), None)
+                if s.ops[-1].startswith("ni"): s.op("su 8 %d %d" % (h, rng.randrange(256)))
+                s.op("pushmv %d %d" % (a, h)); s.own[h] -= 1; insert(a, [s.ident[h]])
+            else:
+                h1 = s.add("bs0 %s" % hx([rng.randrange(0x61, 0x7B) for _ in range(rng.randrange(1, 6))]), "ts")
+                h2 = s.add(rng.choice(["bb 0", "nu", "bc 255"]), "ctrl")
+                s.op("maddmv %d %d %d" % (a, h1, h2)); s.own[h1] -= 1; s.own[h2] -= 1; insert(a, [s.ident[h1], s.ident[h2]])
+        return True
+    return False
+
+# measured (DESIGN 12.1, soak): the extracted model needs about 2e-8 s per unit of the estimate of _soak_account;
+# 1.5e9 keeps one history near 30-40 s, which in practice ends histories with 30-80 live handles at 900-1200 calls
+SOAK = {"lo": 30, "hi": 80, "budget": 1.5e9, "copy_cap": 400, "read_cap": 3000}
+
+def soak_cases_sized(n_cases, lengths=(300, 600, 1000, 1500)):
+    def gen(ctx):
+        rng = ctx.rng
+        return [render3(gen_history3(rng, rng.choice(lengths), soak=SOAK), probe_max=8) for _ in range(n_cases)]
+    return gen
+
+def soak_fault_cases(ctx):
+    """soak-style histories, short enough for the exhaustive refusal enumeration of the fault stream
+    (request k alone / every request from k on, for EVERY k up to the number of requests of the fault-free run:
+    the middle and the end of the history included)"""
+    rng = ctx.rng
+    return [render3(gen_history3(rng, rng.choice([20, 30, 45, 60]), soak={"lo": 4, "hi": 14, "client_buffers": False}), probe_max=8) for _ in range(160)]
+
+def thr_soak_cases(ctx):
+    """16 threads, each a soak history of 200-400 calls over all three layers (decoding, float work, copies, growth)"""
+    rng = ctx.rng
+    out = []
+    for _ in range(6):
+        hs = [render3(gen_history3(rng, rng.choice([200, 300, 400]), soak={"lo": 10, "hi": 30}), probe_max=4) for _ in range(16)]
+        out.append(" || ".join(hs))
+    return out
 
 def api3_cases(ctx):
     """(a) scenario families for every call of HHist3.v, (b) random rule-following histories mixing them with the older calls"""
